@@ -304,6 +304,8 @@ def outcome_class(profile_prop, plan, o, cfg):
         prop = 'C07'
     elif detail.startswith('tsan'):
         prop = 'C18'
+    elif k in ('copy', 'assign', 'replica') and detail.startswith('hang') and profile_prop not in ('C17', 'C18'):
+        prop = 'C06'  # the equality / copy oracles did not return
     elif profile_prop in ('C01', 'C02', 'C03', 'C04', 'C05', 'C06', 'C16', 'C13', 'C14') and k in ('alg',):
         prop = 'C17'
     elif profile_prop not in ('C07', 'C15', 'C17', 'C18'):
